@@ -16,14 +16,14 @@ def hexDigit (c : Char) : Option Nat :=
 def parseHex (s : String) : Option Nat :=
   if s.isEmpty then none else s.toList.foldl (fun a c => match a, hexDigit c with | some x, some d => some (16 * x + d) | _, _ => none) (some 0)
 
-/-- "-" = NULL, "e" = empty, else comma separated hex cells -/
+/-- "-" = NULL, "z" = empty, else comma separated hex cells -/
 def parseCells (s : String) : Option (List Nat) :=
   if s = "-" ∨ s = "" then none
-  else if s = "e" then some []
+  else if s = "z" then some []
   else some ((s.splitOn ",").filterMap parseHex)
 
 def showHexCells (l : List Nat) : String :=
-  if l.isEmpty then "e" else ",".intercalate (l.map fun v => String.ofList (Nat.toDigits 16 v))
+  if l.isEmpty then "z" else ",".intercalate (l.map fun v => String.ofList (Nat.toDigits 16 v))
 
 def parseFx (s : String) : Fixes :=
   match s.toList.map (· == '1') with
